@@ -33,7 +33,7 @@ func classes(msg string) string {
 		set["unused"] = true
 	}
 	if has("expected type") || has("unconvertible type") || has("expected a map") || has("must be an array or slice") ||
-		has("needs a map with string keys") || has("overflows uint") || has("unexpected config type") ||
+		has("needs a map with string keys") || has("overflows uint") || has("unexpected config type") || has("unexpected key type") ||
 		has("number is not an integer") || has("number is out of range") {
 		set["type"] = true
 	}
